@@ -200,15 +200,17 @@ def r8_map_summaries(rep, facts, rid='C16/R9'):
         # whole-container operations
         for meth, args, want in (('clear', lambda it: [], []), ('retain', lambda it: [('pyfn', lambda k, v: keyname(k) != 'a')],
                                                                                 [('b', 'b'), ('c', 'c')]),
-                                 ('sort_values', lambda it: [], sorted(ref0))):
+                                 ('sort_values', lambda it: [], sorted(ref0)),
+                                 ('sort_values_by', lambda it: [('pyfn', lambda k1, v1, k2, v2: ('ctor', 'core::cmp::Ordering::' + ('Less' if keyname(k1) < keyname(k2) else 'Greater' if keyname(k1) > keyname(k2) else 'Equal')))],
+                                  sorted(ref0))):
             d = f'{ty}::{meth}'
             if not facts.has_body(d):
                 continue
             b = facts.body(d)
             model = fresh()
             # start from the order b, a so that sorting has something to do
-            if meth == 'sort_values':
-                model[2]['items'].pairs.reverse()
+            if meth in ('sort_values', 'sort_values_by'):
+                model[2]['items'].pairs.reverse()          # c, b, placeholder, a
             it = PlaceInterp(Evaluator(facts), {'fmt'})
             try:
                 it.apply_fn(b, [model] + args(it))
